@@ -648,11 +648,11 @@ func buildHarness(p *Program, fn, top *ssa.Function, pkg *ssa.Package, args, fre
 		fmt.Fprintf(&body, "govcDump(reflect.ValueOf(&arg%d).Elem(), 0), ", i)
 	}
 	body.WriteString("}\n")
-	body.WriteString("\tout, _ := json.Marshal(map[string]any{\"panic\": panicked, \"results\": results, \"pre\": pre, \"post\": post})\n")
+	body.WriteString("\tout, _ := encjson.Marshal(map[string]any{\"panic\": panicked, \"results\": results, \"pre\": pre, \"post\": post})\n")
 	body.WriteString("\tos.WriteFile(os.Getenv(\"GOVC_REPLAY_OUT\"), out, 0o644)\n")
 	code := body.String()
-	fmt.Fprintf(&b, "package %s\n\nimport (\n\t\"encoding/json\"\n\t\"fmt\"\n\t\"os\"\n\t\"reflect\"\n\t\"testing\"\n", pkg.Pkg.Name())
-	for _, imp := range importsFor(code, pkg.Pkg) {
+	fmt.Fprintf(&b, "package %s\n\nimport (\n\tencjson \"encoding/json\"\n\t\"fmt\"\n\t\"os\"\n\t\"reflect\"\n\t\"testing\"\n", pkg.Pkg.Name())
+	for _, imp := range importsFor(strings.Join(append(append([]string(nil), args...), free...), "\n"), pkg.Pkg) {
 		switch imp {
 		case "encoding/json", "fmt", "os", "reflect", "testing":
 			continue
